@@ -182,6 +182,7 @@ def rand_experiment(rng, run_id: int, indirect: bool, per_detector_en: bool = Fa
         efix = [rng.choice([1.5, 0.16, rng.uniform(0.1, 500)]), rng.choice(['meV', 'meV', 'eV', 'ueV'])]
     return {
         'run_id': run_id, 'emode': 2 if indirect else 1, 'efix': efix, 'en': [en, eunit],
+        'en_transposed': bool(indirect and per_detector_en and rng.random() < 0.5),
         'psi': _angle(rng), 'omega': _angle(rng), 'dpsi': _angle(rng), 'gl': _angle(rng), 'gs': _angle(rng),
         'u': [rng.choice([1.0, 0.0, rng.uniform(-2, 2)]) for _ in range(3)],
         'v': [rng.choice([1.0, 0.0, rng.uniform(-2, 2)]) for _ in range(3)],
@@ -444,10 +445,14 @@ def make_experiment(e):
     efv, efu = e['efix']
     efix = (sc.array(dims=['detector'], values=np.asarray(efv, dtype='float64'), unit=efu)
             if isinstance(efv, list) else sc.scalar(float(efv), unit=efu))
+    en = sc.array(dims=['energy_transfer'] if not isinstance(e['en'][0][0], list) else ['detector', 'energy_transfer'],
+                  values=np.asarray(e['en'][0], dtype='float64'), unit=e['en'][1])
+    if en.ndim == 2 and e.get('en_transposed'):
+        # the same table supplied with the dimensions in the other order (energy-major memory layout):
+        # the labels, not the memory order, say which entry belongs to which detector
+        en = en.transpose(['energy_transfer', 'detector']).copy()
     return SqwIXExperiment(
-        run_id=e['run_id'], efix=efix, emode=EnergyMode(e['emode']),
-        en=sc.array(dims=['energy_transfer'] if not isinstance(e['en'][0][0], list) else ['detector', 'energy_transfer'],
-                    values=np.asarray(e['en'][0], dtype='float64'), unit=e['en'][1]),
+        run_id=e['run_id'], efix=efix, emode=EnergyMode(e['emode']), en=en,
         psi=_q(e['psi']), u=sc.vector(e['u']), v=sc.vector(e['v']), omega=_q(e['omega']), dpsi=_q(e['dpsi']),
         gl=_q(e['gl']), gs=_q(e['gs']), filename=e['filename'], filepath=e['filepath'])
 
